@@ -19,6 +19,14 @@ def unique_key_identity(model: Model, K: RuleResult):
     """EditableModule._get_unique_params_idxs de-duplicates by object identity: the search key derives from id(<tensor>).
     Any other key (storage pointer, value, shape) merges distinct tensors that share memory or separates aliases."""
     f = model.func(EM, "EditableModule._get_unique_params_idxs")
+    sem = _unique_idxs_semantic(f)
+    if sem is True:
+        K.ok(f.fq, "abstract run over [T0, T1, T0, T2, T1]: unique positions [0, 1, 3], alias map [[0, 2], [1, 4], [3]] (de-duplication by object identity)")
+        return
+    if isinstance(sem, str):
+        K.bad(f, f.node, "parameter de-duplication must be keyed on object identity id(<tensor>); with any other key two different tensors that share "
+              "storage are merged (one silently replaces the other on substitution) or aliases are separated [%s]" % sem)
+        return
     defs = function_defs(f.node)
     keys = []
     for n in own_nodes(f.node):
@@ -41,6 +49,37 @@ def unique_key_identity(model: Model, K: RuleResult):
         else:
             K.bad(f, enclosing_stmt(site), "parameter de-duplication must be keyed on object identity id(<tensor>); with any other key two different tensors that share "
                   "storage are merged (one silently replaces the other on substitution) or aliases are separated", what=what)
+
+
+def _unique_idxs_semantic(f):
+    """abstract run (domains/kinds.py) of _get_unique_params_idxs on five parameters of which two pairs are the same object: True /
+    a message / None when the body is outside the interpreter's vocabulary (the structural rule decides then)"""
+    from ..domains.kinds import AObj, KindInterp
+    from ..domains.dictsem import Unsupported, Raised, _Return, Tok, ADict
+    me, pm, pa = f.params()[:3]
+    t = [Tok("T0", is_tensor=True), Tok("T1", is_tensor=True), Tok("T2", is_tensor=True)]
+    allp = [t[0], t[1], t[0], t[2], t[1]]
+    it = KindInterp({me: AObj("module", ("EditableModule",)), pm: "m", pa: list(allp)})
+    try:
+        try:
+            it.run(f.node.body)
+            ret = None
+        except _Return as r:
+            ret = r.v
+    except Unsupported:
+        return None
+    except Raised as e:
+        return "raises %s" % e
+
+    def entry(attr):
+        d = it.env.get("%s.%s" % (me, attr))
+        return d.data.get("m") if isinstance(d, ADict) else None
+    idxs, maps, num = entry("_unique_params_idxs"), entry("_unique_params_maps"), entry("_number_of_params")
+    if idxs is None or maps is None:
+        return None
+    if list(idxs) != [0, 1, 3] or [list(m_) for m_ in maps] != [[0, 2], [1, 4], [3]] or num != 5 or ret is None or list(ret) != [0, 1, 3]:
+        return "parameters [T0, T1, T0, T2, T1] give unique positions %r, alias map %r, count %r, returned %r" % (idxs, maps, num, ret)
+    return True
 
 
 def unique_fill(model: Model, M: RuleResult):
